@@ -339,7 +339,7 @@ fn run(tier: &str, seed: u64, checked: bool, rep: &mut Report) {
         }
     }
     // random bytes
-    for _ in 0..if thorough { 3000 / div } else { 150 } {
+    for _ in 0..if thorough { 3000 / div } else { 600 } {
         let n = match rng.below(5) {
             0 => rng.range(0, 140),
             1 => rng.range(128, 400),
@@ -356,7 +356,7 @@ fn run(tier: &str, seed: u64, checked: bool, rep: &mut Report) {
     }
     // structured, then mutated
     let small = GenOpts::small();
-    for _ in 0..if thorough { 12_000 / div } else { 500 } {
+    for _ in 0..if thorough { 12_000 / div } else { 2_000 } {
         let d = eg::gen_device(&mut rng, &small);
         let (mut img, ext) = d.encode();
         let mut label = "structured";
